@@ -849,7 +849,22 @@ class Path:
         if self.sliced is not None:
             raise ValueError("already sliced")
 
-        self.sliced = self._get_related(var_set)
+        # collect every condition connected to the given variables through shared variables,
+        # in either order of appearance. note that `related` only records the *previous* conditions
+        # of each condition: for `x == y` followed by `y > 9`, it would miss `y > 9` for x.
+        conds = list(self.conditions)
+        sliced, seen, worklist = set(), set(), list(var_set)
+        while worklist:
+            var = worklist.pop()
+            if var in seen:
+                continue
+            seen.add(var)
+            for idx in self.var_to_conds[var]:
+                if idx not in sliced:
+                    sliced.add(idx)
+                    worklist.extend(self.get_var_set(conds[idx]))
+
+        self.sliced = sliced
 
     def __deepcopy__(self, memo):
         raise NotImplementedError("use the branch() method instead of deepcopy()")
